@@ -374,6 +374,7 @@ Proof.
     + rewrite Z.mul_0_l, Z.lor_0_r. replace (m3 <? 2 ^ MANTISSA_SIZE f) with true by lia. reflexivity.
 Qed.
 
+
 (** ** soundness of [cf_main] from the floor / tie facts *)
 Definition cf_tie (f : format) (q lo hi : Z) : bool :=
   let u := hi / 2 ^ 63 in
@@ -413,9 +414,9 @@ Proof.
   assert (Hsh : 0 <= sh) by (unfold sh; lia).
   pose proof (qY_pos q) as HY. pose proof (qX_pos q) as HX.
   assert (HG : 0 < 2 ^ (128 + sh)) by (apply pow2_pos; lia).
-  assert (HD : 0 < D) by (unfold D; nia).
+  assert (HD : 0 < D) by (unfold D; apply Z.mul_pos_pos; lia).
   assert (Hn : 0 < dec_num w q).
-  { rewrite dec_num_eq. pose proof (tenN_pos q). nia. }
+  { rewrite dec_num_eq. pose proof (tenN_pos q). apply Z.mul_pos_pos; lia. }
   assert (Hd : 0 < dec_den q).
   { rewrite dec_den_eq. apply tenD_pos. }
   unfold cf_main. cbv zeta. fold u. fold sh. fold M. fold lz. fold power2.
@@ -425,18 +426,19 @@ Proof.
     set (np1 := 1 - power2) in *.
     pose proof (pow2_pos np1 ltac:(lia)) as Hpn.
     set (Dh := D * 2 ^ np1).
-    assert (HDh : 0 < Dh) by (unfold Dh; nia).
+    assert (HDh : 0 < Dh) by (unfold Dh; apply Z.mul_pos_pos; lia).
     set (m1 := M / 2 ^ np1).
     assert (Hm1 : m1 * 2 ^ np1 <= M < (m1 + 1) * 2 ^ np1).
     { unfold m1. pose proof (Z.div_mod M (2 ^ np1) ltac:(lia)).
-      pose proof (Z.mod_pos_bound M (2 ^ np1) ltac:(lia)). nia. }
+      pose proof (Z.mod_pos_bound M (2 ^ np1) ltac:(lia)). clear - H H0. nia. }
     assert (Hm1' : 0 <= m1 < 2 * 2 ^ MANTISSA_SIZE f).
     { split.
       - unfold m1. apply Z.div_pos; lia.
       - unfold m1. apply Z.div_lt_upper_bound; [lia|].
-        assert (2 ^ 1 <= 2 ^ np1) by (apply pow2_le; lia). change (2 ^ 1) with 2 in *. nia. }
+        assert (2 ^ 1 <= 2 ^ np1) by (apply pow2_le; lia). change (2 ^ 1) with 2 in *.
+        clear - H HM HM2 HP. nia. }
     assert (HA1 : m1 * Dh <= A < (m1 + 1) * Dh).
-    { unfold Dh. split; nia. }
+    { unfold Dh. clear - Hm1 F1 HD Hpn. split; nia. }
     pose proof (half_round A Dh m1 false HDh ltac:(lia) HA1 ltac:(discriminate)) as HR.
     cbv zeta iota in HR.
     assert (Hnt : A = m1 * Dh -> m1 mod 2 = 1 -> false = true \/ m1 mod 4 = 3).
@@ -457,7 +459,8 @@ Proof.
     assert (HNEt := ne_transfer _ _ _ _ m3 HDn HD2 Hsc HNE).
     assert (Hupp : sc_num (dec_num w q) (femin f) < 2 ^ MANTISSA_SIZE f * sc_den (dec_den q) (femin f)).
     { apply (Z.mul_lt_mono_pos_r (2 * Dh)); [lia|]. rewrite Hsc.
-      assert (A < 2 * 2 ^ MANTISSA_SIZE f * Dh) by nia. nia. }
+      assert (A < 2 * 2 ^ MANTISSA_SIZE f * Dh) by (clear - HA1 Hm1' HDh; nia).
+      clear - H HDn. nia. }
     assert (Hm3 : 0 <= m3 <= 2 ^ MANTISSA_SIZE f) by lia.
     pose proof (rne_finish_sub f _ _ m3 L Hn Hd Hupp HNEt Hm3) as HF. cbv zeta in HF.
     destruct (64 <=? np1) eqn:E64; [|exact HF].
@@ -496,12 +499,138 @@ Proof.
     assert (HNEt := ne_transfer _ _ _ _ m3 HDn HD2 Hsc HNE).
     assert (Hupp : sc_num (dec_num w q) E < 2 ^ (MANTISSA_SIZE f + 1) * sc_den (dec_den q) E).
     { apply (Z.mul_lt_mono_pos_r (2 * D)); [lia|]. rewrite Hsc.
-      assert (A < 4 * 2 ^ MANTISSA_SIZE f * D) by nia. nia. }
+      assert (A < 4 * 2 ^ MANTISSA_SIZE f * D) by (clear - F1 HM HM2 HD; nia).
+      rewrite HM1. clear - H HDn. nia. }
     assert (Hlow : 2 ^ MANTISSA_SIZE f * sc_den (dec_den q) E <= sc_num (dec_num w q) E).
     { apply (Z.mul_le_mono_pos_r _ _ (2 * D)); [lia|]. rewrite Hsc.
-      assert (2 * 2 ^ MANTISSA_SIZE f * D <= A) by nia. nia. }
+      assert (2 * 2 ^ MANTISSA_SIZE f * D <= A) by (clear - F1 HM HM1 HD; nia).
+      clear - H HDn. nia. }
     assert (Hm3 : 2 ^ MANTISSA_SIZE f <= m3 <= 2 * 2 ^ MANTISSA_SIZE f) by lia.
     pose proof (rne_finish f _ _ E m3 L Hn Hd ltac:(unfold E; lia) Hlow Hupp HNEt Hm3) as HF.
     cbv zeta in HF. replace (E - femin f + 1) with power2 in HF by (unfold E; lia).
     exact HF.
+Qed.
+
+(** ** the 128-bit product and the pair returned by [compute_product_approx] *)
+Lemma mod_ones_le x a c : 0 <= c <= a -> x mod 2 ^ a = 2 ^ a - 1 -> x mod 2 ^ c = 2 ^ c - 1.
+Proof.
+  intros Hc H. pose proof (pow2_pos c ltac:(lia)). pose proof (pow2_pos (a - c) ltac:(lia)).
+  pose proof (Z.div_mod x (2 ^ a) ltac:(apply Z.pow_nonzero; lia)) as E. rewrite H in E.
+  rewrite (pow2_split c a) in E by lia.
+  symmetry. apply (Z.mod_unique_pos _ _ ((x / (2 ^ c * 2 ^ (a - c))) * 2 ^ (a - c) + 2 ^ (a - c) - 1)); [lia|].
+  rewrite E at 1. ring.
+Qed.
+
+Lemma pair_facts f q w' lo hi : lfmt f -> -342 <= q <= 308 -> 2 ^ 63 <= w' < 2 ^ 64 ->
+  0 <= lo < 2 ^ 64 -> 0 <= hi < 2 ^ 64 ->
+  refined_pair w' q lo hi \/ unrefined_pair w' q (61 - MANTISSA_SIZE f) lo hi ->
+  let P := w' * T128 q in
+  let H := hi * 2 ^ 64 + lo in
+  2 ^ 62 <= hi /\
+  ((H * 2 ^ 64 <= P < (H + 1) * 2 ^ 64) \/
+   (P = H * 2 ^ 64 + w' * Tlo q /\ hi mod 2 ^ (61 - MANTISSA_SIZE f) <> 2 ^ (61 - MANTISSA_SIZE f) - 1)).
+Proof.
+  intros L Hq Hw Hlo Hhi HP P H.
+  pose proof (tentry_range q Hq) as (HT1 & HT2 & HT).
+  rewrite p2_127, p2_128 in HT.
+  destruct HP as [HR|[HU1 HU2]].
+  - unfold refined_pair in HR. fold P in HR. fold H in HR.
+    assert (HPb : 2 ^ 63 * (2 ^ 63 * 2 ^ 64) <= P) by (unfold P; nia).
+    pose proof (Z.div_mod P (2 ^ 64) ltac:(lia)) as E.
+    pose proof (Z.mod_pos_bound P (2 ^ 64) ltac:(lia)) as B.
+    rewrite <- HR in E.
+    split.
+    + unfold H in *. rewrite p2_63, p2_64 in *. change (2 ^ 62) with 4611686018427387904. lia.
+    + left. lia.
+  - fold H in HU1.
+    assert (HThi : 2 ^ 63 <= Thi q).
+    { unfold T128 in HT. rewrite p2_63, p2_64 in *. lia. }
+    split.
+    + assert (2 ^ 63 * 2 ^ 63 <= H) by (rewrite HU1; nia).
+      unfold H in *. rewrite p2_63, p2_64 in *. change (2 ^ 62) with 4611686018427387904. lia.
+    + right. split; [|exact HU2]. unfold P, T128. rewrite HU1. ring.
+Qed.
+
+Lemma prod_floor f q w' lo hi : lfmt f -> -342 <= q <= 308 -> 2 ^ 63 <= w' < 2 ^ 64 ->
+  0 <= lo < 2 ^ 64 -> 2 ^ 62 <= hi < 2 ^ 64 ->
+  refined_pair w' q lo hi \/ unrefined_pair w' q (61 - MANTISSA_SIZE f) lo hi ->
+  let P := w' * T128 q in
+  let u := hi / 2 ^ 63 in
+  let sh := u + 61 - MANTISSA_SIZE f in
+  let M := hi / 2 ^ sh in
+  let G := 2 ^ (128 + sh) in
+  M * G <= P < (M + 1) * G /\
+  (lo <> 2 ^ 64 - 1 \/ unrefined_pair w' q (61 - MANTISSA_SIZE f) lo hi -> P + w' <= (M + 1) * G).
+Proof.
+  intros L Hq Hw Hlo Hhi HP P u sh M G.
+  pose proof (M_range f hi L Hhi) as MR. cbv zeta in MR. fold u in MR. fold sh in MR. fold M in MR.
+  destruct MR as (Hu & Hub & HM).
+  pose proof (lf_ms f L) as HMS.
+  pose proof (pair_facts f q w' lo hi L Hq Hw Hlo ltac:(lia) HP) as [_ PF]. cbv zeta in PF. fold P in PF.
+  pose proof (tentry_range q Hq) as (HT1 & HT2 & HT).
+  assert (Hsh : 0 <= sh) by (unfold sh; lia).
+  pose proof (pow2_pos sh Hsh) as Hpsh.
+  assert (EG : G = 2 ^ sh * (2 ^ 64 * 2 ^ 64)).
+  { unfold G. rewrite Z.add_comm, pow2_add by lia. rewrite p2_128. reflexivity. }
+  pose proof (Z.div_mod hi (2 ^ sh) ltac:(lia)) as Ehi. fold M in Ehi.
+  pose proof (Z.mod_pos_bound hi (2 ^ sh) ltac:(lia)) as Bhi.
+  set (r := hi mod 2 ^ sh) in *.
+  assert (HMG : M * G = (hi - r) * (2 ^ 64 * 2 ^ 64)) by (rewrite EG; nia).
+  assert (HMG1 : (M + 1) * G = (hi - r + 2 ^ sh) * (2 ^ 64 * 2 ^ 64)) by (rewrite EG; nia).
+  rewrite HMG, HMG1.
+  destruct PF as [PR|[PU1 PU2]].
+  - split; [nia|]. intros [Hl|[_ HU]]; [nia|].
+    assert (r <> 2 ^ sh - 1).
+    { intros Er. apply HU. apply (mod_ones_le hi sh); [unfold sh; lia|exact Er]. }
+    nia.
+  - assert (r <> 2 ^ sh - 1).
+    { intros Er. apply PU2. apply (mod_ones_le hi sh); [unfold sh; lia|exact Er]. }
+    assert (0 <= w' * Tlo q) by nia.
+    assert (w' * (Tlo q + 1) <= 2 ^ 64 * 2 ^ 64) by nia.
+    split; [nia|]. intros _. nia.
+Qed.
+
+(** ** the driver: [compute_float] is sound wherever the floor / tie facts hold for the pair *)
+Definition facts_ok (f : format) (q w lo hi : Z) : Prop :=
+  let lz := lz64 w in
+  let u := hi / 2 ^ 63 in
+  let sh := u + 61 - MANTISSA_SIZE f in
+  let M := hi / 2 ^ sh in
+  let power2 := pw q + u - lz - MINIMUM_EXPONENT f in
+  let A := w * 2 ^ lz * qX q in
+  let D := 2 ^ (128 + sh) * qY q in
+  M * D <= A < (M + 1) * D /\
+  (0 < power2 -> (cf_tie f q lo hi = true -> A = M * D) /\
+                 (A = M * D -> M mod 4 = 1 -> cf_tie f q lo hi = true)) /\
+  (power2 <= 0 -> forall j, A <> (2 * j + 1) * (D * 2 ^ (1 - power2))).
+
+Definition cf_sound (f : format) (b : build) (q w : Z) : Prop :=
+  exists fp, compute_float TABLES f b q w = Ok fp /\
+    (0 <= exp fp -> fields_ok f fp /\ rne_bits f (dec_num w q) (dec_den q) (pack f fp)).
+
+Lemma cf_driver f b q w : lfmt f -> 0 < w < 2 ^ 64 ->
+  SMALLEST_POWER_OF_TEN f <= q <= LARGEST_POWER_OF_TEN f ->
+  (forall lo hi, 0 <= lo < 2 ^ 64 -> 2 ^ 62 <= hi < 2 ^ 64 ->
+     refined_pair (w * 2 ^ lz64 w) q lo hi \/
+     unrefined_pair (w * 2 ^ lz64 w) q (61 - MANTISSA_SIZE f) lo hi ->
+     (lo =? u64_max) && negb ((-27 <=? q) && (q <=? 55)) = false ->
+     facts_ok f q w lo hi) ->
+  cf_sound f b q w.
+Proof.
+  intros L Hw Hq HF.
+  pose proof (lf_ms f L) as HMS. pose proof (lf_sp10 f L) as Hsp. pose proof (lf_lp10 f L) as Hlp.
+  pose proof (lz64_spec w Hw) as (Hlz & Hw').
+  destruct (compute_product_approx_spec b q (w * 2 ^ lz64 w) (MANTISSA_SIZE f + 3)
+              ltac:(lia) ltac:(lia) ltac:(lia)) as (lo & hi & Hcpa & Hlo & Hhi & Hpair).
+  replace (64 - (MANTISSA_SIZE f + 3)) with (61 - MANTISSA_SIZE f) in Hpair by lia.
+  pose proof (pair_facts f q _ lo hi L ltac:(lia) Hw' Hlo Hhi Hpair) as [Hhi62 _].
+  unfold cf_sound.
+  rewrite (cf_run f b q w lo hi L Hw Hq Hcpa Hlo ltac:(lia)).
+  destruct ((lo =? u64_max) && negb ((-27 <=? q) && (q <=? 55))) eqn:Efb.
+  - destruct (ces_ok f b q hi (lz64 w) L ltac:(lia) Hhi Hlz) as (fp & Hfp & Hneg).
+    exists fp. split; [exact Hfp|]. intros. lia.
+  - eexists. split; [reflexivity|]. intros _.
+    specialize (HF lo hi Hlo ltac:(lia) Hpair Efb). unfold facts_ok in HF. cbv zeta in HF.
+    destruct HF as (F1 & F2 & F3).
+    exact (cf_main_sound f q w lo hi L Hw Hq ltac:(lia) F1 F2 F3).
 Qed.
